@@ -259,6 +259,21 @@ Proof.
   rewrite map_app, <- app_assoc. reflexivity.
 Qed.
 
+(* the log only grows, by exactly the acquires of the new steps: an operation
+   that has returned (its entry is in the log already) precedes in the log
+   every operation called later (its acquire, hence its entry, comes later) *)
+Lemma run_log_grows g tr g' :
+  run g tr g' -> exists rest, glog g' = glog g ++ rest /\ map entry_tid rest = acq_tids tr.
+Proof.
+  intros Hr. induction Hr as [g|g t lb g1 tr g2 Hs _ (rest & IH1 & IH2)].
+  - exists []. now rewrite app_nil_r.
+  - inversion Hs; subst; unfold enter in *; cbn [glog] in *.
+    + exists rest. split; assumption.
+    + eexists. split; [rewrite IH1, <- app_assoc; reflexivity|]. unfold acq_tids in *. cbn. now rewrite IH2.
+    + exists rest. split; assumption.
+    + exists rest. split; assumption.
+Qed.
+
 Theorem glog_order s0 tr g :
   run (init s0) tr g -> map entry_tid (glog g) = acq_tids tr.
 Proof. intros Hr. now rewrite (run_log_order _ _ _ Hr). Qed.
